@@ -72,15 +72,15 @@ func (a *AgentKey) AddCertsToAgent(certs []ssh.PublicKey, comments []string) err
 
 	var err error
 	addedKey := a.addedKey
-	for i, cert := range certs {
+	for _, cert := range certs {
 		addedKey.Certificate, err = key.CastSSHPublicKeyToCertificate(cert)
 		if addedKey.Certificate == nil || err != nil {
 			continue
 		}
+		// The certificate is stored under the configured label alone. (The comment the CA returned
+		// with it used to be accumulated into a.addedKey.Comment here, which doubled that string
+		// for every commented certificate and was never read.)
 		addedKey.Comment = a.opt.CertLabel
-		if len(comments) > i && comments[i] != "" {
-			a.addedKey.Comment += fmt.Sprintf("%s-%s", a.addedKey.Comment, comments[i])
-		}
 		if err := a.agent.Add(addedKey); err != nil {
 			return err
 		}
